@@ -1,43 +1,28 @@
 (** ReaderEnd: texts WITHOUT braces (coarse fragment texts).  The reader's look-ahead loop then runs off
-    the end of the text behind the last node, which changes two things: `rdx` points at the last
-    character instead of behind it (harmless: the bond order computed from it is never used), and a
-    %nn marker that ends the text is never committed (defect class pct_at_end, excluded here by
-    [end_ok]).  Result: [reader_sim_lin_nobrace], [reader_sim_ast_nobrace]. *)
+    the end of the text behind the last node: `rdx` points at the last character instead of behind it
+    (harmless: the bond order computed from it is never used), and a %nn marker that ends the text is
+    registered by the code behind the loop (fix fd2fb55).  Result: [reader_sim_lin_nobrace],
+    [reader_sim_wf_nobrace], [reader_sim_C04]. *)
 From Coq Require Import String.
 From Coq Require Import List Ascii ZArith Bool Lia.
 From CGV Require Import Base.PyBase Base.PyVal Base.NxGraph Base.PyGen Gen.ReaderGen Dialect.DialectImpl
-     Reader.ReaderImpl Reader.Grammar Reader.ReaderLemmas Reader.Lin Reader.ReaderSim Reader.ReaderMult Reader.ReaderAst Reader.ReaderWf.
+     Reader.ReaderImpl Reader.Grammar Reader.ReaderLemmas Reader.Lin Reader.GraphLemmas Reader.ReaderSim Reader.ReaderMult
+     Reader.ReaderAst Reader.ReaderWf Reader.ReaderCheck.
 Import ListNotations.
 Open Scope Z_scope.
 
-(** is the last ring specification written in % form? *)
-Fixpoint final_pp (pp : bool) (r : list (option sym * marker)) : bool :=
-  match r with [] => pp | (o, m) :: t => final_pp (pct_form pp o m) t end.
-(** the last item does not end the text with a marker in % form *)
-Definition item_end_ok (i : lin) : bool :=
-  is_some (l_close i) || is_some (l_bond i) || is_some (l_mult i) || negb (final_pp false (l_rings i)).
-Definition end_ok (l : list lin) : bool := match rev l with i :: _ => item_end_ok i | [] => true end.
-
-(** [ring_list] again, now remembering whether a marker is still pending *)
-Lemma ring_list_pend cur : forall r pp a cyc ces tail idx,
-  forallb (fun om => marker_ok (snd om)) r = true -> ashape_ok a -> is_pend a = pp ->
-  exists a' cyc' ces',
-    ring_scan cur (rings_str pp r ++ tail) idx (conc a cyc ces)
-    = ring_scan cur tail (idx + length (rings_str pp r)) (conc a' cyc' ces')
-    /\ ashape_ok a' /\ is_pend a' = final_pp pp r
-    /\ settled cur a' cyc' ces' = spec_rings r cur (settled cur a cyc ces).
+(** the end of the look-ahead loop: a pending %nn marker is registered *)
+Lemma ring_scan_nil cur idx a cyc ces : ashape_ok a ->
+  exists x, ring_scan cur [] idx (conc a cyc ces) = Ok (x, Nat.pred idx) /\ (r_cyc x, r_ces x) = settled cur a cyc ces.
 Proof.
-  induction r as [|[o m] t IH]; intros pp a cyc ces tail idx Hr Ha Hp.
-  - exists a, cyc, ces. cbn. rewrite Nat.add_0_r. split; [reflexivity|]. split; [assumption|]. split; [assumption|]. now destruct (settled cur a cyc ces).
-  - cbn [forallb snd] in Hr. apply andb_prop in Hr as [Hm Ht].
-    cbn [rings_str final_pp]. rewrite <- app_assoc.
-    destruct (ring_one cur o m pp a cyc ces (rings_str (pct_form pp o m) t ++ tail) idx Hm Ha Hp)
-      as (a1 & cyc1 & ces1 & E1 & Ha1 & Hp1 & S1).
-    destruct (IH (pct_form pp o m) a1 cyc1 ces1 tail (idx + length (ring_str pp o m))%nat Ht Ha1 Hp1)
-      as (a2 & cyc2 & ces2 & E2 & Ha2 & Hp2 & S2).
-    exists a2, cyc2, ces2. split; [|split; [assumption|split; [assumption|]]].
-    + rewrite E1, E2. f_equal. rewrite app_length. lia.
-    + rewrite S2, S1. cbn [spec_rings]. now destruct (settled cur a cyc ces).
+  intros Ha. destruct a as [|ds o]; cbn [conc ring_scan].
+  - eexists. split; [reflexivity|]. reflexivity.
+  - unfold pend_st. cbn [r_multi r_marker skipn andb]. destruct (digits_ok_all ds Ha) as [Hall Hne].
+    assert (Hd : py_isdigit (digits_str ds) = true).
+    { unfold py_isdigit. destruct ds; [contradiction|]. cbn [digits_str map]. change (digit_char n :: map digit_char ds) with (digits_str (n :: ds)).
+      now apply all_digits_str. }
+    rewrite Hd, py_int_digits by assumption. cbn [bind]. rewrite ring_commit_clean. eexists. split; [reflexivity|].
+    cbn [clean_st r_cyc r_ces settled]. now destruct (commit _ cur o cyc ces).
 Qed.
 
 (** where the loop stops: inside the text *)
@@ -47,7 +32,9 @@ Proof.
   induction s as [|c r IH]; intros idx x x1 rdx Hne H; [contradiction|].
   assert (Hrec : forall y, ring_scan cur r (Datatypes.S idx) y = Ok (x1, rdx) -> (idx <= rdx < idx + length (c :: r))%nat).
   { intros y Hy. destruct r as [|c2 r2].
-    - cbn in Hy. injection Hy as _ <-. cbn. lia.
+    - cbn [ring_scan] in Hy. destruct (r_multi y && py_isdigit (skipn 1 (r_marker y))).
+      + destruct (py_int (skipn 1 (r_marker y))); cbn [bind] in Hy; [|discriminate]. injection Hy as _ <-. cbn. lia.
+      + injection Hy as _ <-. cbn. lia.
     - apply IH in Hy; [|discriminate]. cbn [length] in *. lia. }
   cbn [ring_scan] in H.
   destruct (if r_multi x && negb (is_digit c) then _ else _) as [y|]; [|discriminate].
@@ -70,7 +57,7 @@ Lemma tail_bond_safe fo i : lin_ok fo i = true -> Forall bond_safe (lin_tail_str
 Proof.
   intros Hok. destruct (lin_ok_parts fo i Hok) as (_ & Hr & Hm & _). unfold lin_tail_str.
   apply Forall_app; split.
-  - destruct (l_mult i) as [ds|]; [|constructor]. destruct Hm as (_ & _ & Hd & _). cbn [mult_str].
+  - destruct (l_mult i) as [ds|]; [|constructor]. destruct Hm as (_ & Hd & _). cbn [mult_str].
     constructor; [eexists; reflexivity|]. apply (cls_digits bond_safe bond_safe_digit). now apply digits_ok_all.
   - apply Forall_app; split; [now apply (cls_rings bond_safe bond_safe_sym bond_safe_digit bond_safe_pct)|].
     apply Forall_app; split; [apply (cls_osym bond_safe bond_safe_sym)|].
@@ -86,96 +73,91 @@ Proof.
   exact Hin.
 Qed.
 
+(** the count at the end of the text *)
+Lemma find_idx_count_end ds : forallb (fun d => (d <? 10)%nat) ds = true ->
+  find_idx ("|"%char :: digits_str ds) fnc_eon = Datatypes.S (length ds).
+Proof.
+  intros Hd. cbn [find_idx]. change (str_in ["|"%char] fnc_eon) with false. cbv iota. f_equal.
+  induction ds as [|d r IH]; [reflexivity|]. cbn [forallb] in Hd. apply andb_prop in Hd as [H1 H2]. apply Nat.ltb_lt in H1.
+  cbn [digits_str map find_idx length]. rewrite digit_not_eon by assumption. f_equal. now apply IH.
+Qed.
+Lemma nmon_last fo i v : lin_ok fo i = true -> (l_mult i <> None -> v = default_bond_order) ->
+  nmon_expr (lin_tail_str i) v
+  = Ok (Z.of_nat (mult_val (l_mult i)), match l_mult i with Some _ => oord (l_bond i) | None => v end).
+Proof.
+  intros Hok Hv. destruct (lin_ok_parts fo i Hok) as (_ & Hr & Hm & Hc). unfold lin_tail_str.
+  destruct (l_mult i) as [ds|] eqn:Em.
+  - destruct Hm as (Er & Hd & H1). rewrite Er. cbn [mult_str rings_str app mult_val]. rewrite (Hv ltac:(discriminate)).
+    destruct (digits_ok_all ds Hd) as [Hall _].
+    unfold nmon_expr. change (Ascii.eqb "|"%char "|"%char) with true. cbv iota. rewrite fnc0_spec.
+    assert (Hy : (exists y ty, osym_str (l_bond i) ++ close_str (l_close i) = y :: ty /\ str_in [y] fnc_eon = true
+                  /\ (if sto_mem y then symbol_to_order_lookup [y] else Ok default_bond_order) = Ok (oord (l_bond i)))
+                 \/ (osym_str (l_bond i) ++ close_str (l_close i) = [] /\ l_bond i = None)).
+    { destruct (l_bond i) as [s|]; cbn [osym_str app oord].
+      - left. eexists _, _. split; [reflexivity|]. split; [apply sym_in_eon|]. now rewrite sym_mem, sym_lookup.
+      - destruct (l_close i) as [a|]; cbn [close_str]; [left; eexists _, _; split; [reflexivity|]; split; reflexivity|right; split; reflexivity]. }
+    destruct Hy as [(y & ty & Ey & Hyin & Hybo)|(Ey & Eb)]; rewrite Ey.
+    + rewrite (find_idx_count ds y ty Hall Hyin). cbn [bind].
+      unfold py_slice. cbn [skipn]. replace (Datatypes.S (length ds) - 1)%nat with (length (digits_str ds)) by (unfold digits_str; rewrite map_length; lia).
+      rewrite firstn_app, Nat.sub_diag, firstn_all. cbn [firstn]. rewrite app_nil_r. rewrite py_int_full_digits by assumption. cbn [bind].
+      assert (En : nth_error ("|"%char :: digits_str ds ++ y :: ty) (Datatypes.S (length ds)) = Some y).
+      { cbn [nth_error]. rewrite nth_error_app2 by (unfold digits_str; rewrite map_length; lia).
+        unfold digits_str. rewrite map_length, Nat.sub_diag. reflexivity. }
+      rewrite En, Hybo. reflexivity.
+    + rewrite app_nil_r. rewrite (find_idx_count_end ds Hall). cbn [bind].
+      unfold py_slice. cbn [skipn]. replace (Datatypes.S (length ds) - 1)%nat with (length (digits_str ds)) by (unfold digits_str; rewrite map_length; lia).
+      rewrite firstn_all. rewrite py_int_full_digits by assumption. cbn [bind].
+      assert (En : nth_error ("|"%char :: digits_str ds) (Datatypes.S (length ds)) = None).
+      { apply nth_error_None. cbn [length]. unfold digits_str. rewrite map_length. lia. }
+      rewrite En, Eb. reflexivity.
+  - cbn [mult_str app mult_val].
+    assert (Hp : Forall nobar (rings_str false (l_rings i) ++ osym_str (l_bond i) ++ close_str (l_close i))).
+    { apply Forall_app; split; [now apply nobar_rings|]. apply Forall_app; split; [apply nobar_osym|].
+      destruct (l_close i); cbn [close_str]; [|constructor]. constructor; [discriminate|apply nobar_osym]. }
+    unfold nmon_expr. destruct (rings_str false (l_rings i) ++ osym_str (l_bond i) ++ close_str (l_close i)) as [|c p]; [reflexivity|].
+    inversion Hp as [|? ? Hc0 _]; subst. destruct (Ascii.eqb_spec c "|"%char); [contradiction|reflexivity].
+Qed.
+
 (** look-ahead of the LAST item, the text ending right behind it *)
-Lemma scan_last fo i cur cyc : lin_ok fo i = true -> item_end_ok i = true ->
+Lemma scan_last fo i cur cyc : lin_ok fo i = true ->
   exists x rdx v, ring_scan cur (lin_tail_str i) 0 (clean_st cyc []) = Ok (x, rdx)
                   /\ (r_cyc x, r_ces x) = spec_rings (l_rings i) cur (cyc, [])
                   /\ bond_expr (lin_tail_str i) rdx = Ok v
-                  /\ (l_mult i <> None -> v = 1).
+                  /\ (l_mult i <> None -> v = default_bond_order).
 Proof.
-  intros Hok Hend. destruct (lin_ok_parts fo i Hok) as (_ & Hr & Hm & Hc).
+  intros Hok. destruct (lin_ok_parts fo i Hok) as (_ & Hr & Hm & Hc).
   assert (Hsafe := tail_bond_safe fo i Hok).
   assert (Hgen : forall x rdx, ring_scan cur (lin_tail_str i) 0 (clean_st cyc []) = Ok (x, rdx) ->
             (r_cyc x, r_ces x) = spec_rings (l_rings i) cur (cyc, []) -> (l_mult i <> None -> rdx = O) ->
             exists x' rdx' v, ring_scan cur (lin_tail_str i) 0 (clean_st cyc []) = Ok (x', rdx')
                   /\ (r_cyc x', r_ces x') = spec_rings (l_rings i) cur (cyc, [])
-                  /\ bond_expr (lin_tail_str i) rdx' = Ok v /\ (l_mult i <> None -> v = 1)).
+                  /\ bond_expr (lin_tail_str i) rdx' = Ok v /\ (l_mult i <> None -> v = default_bond_order)).
   { intros x rdx E S Hz. destruct (lin_tail_str i) as [|c0 r0] eqn:Et.
-    - exists x, rdx, 1. repeat split; try assumption.
+    - exists x, rdx, default_bond_order. repeat split; try assumption.
     - pose proof (ring_scan_rdx cur (c0 :: r0) 0 _ x rdx ltac:(discriminate) E) as Hb.
       destruct (bond_expr_safe (c0 :: r0) rdx Hsafe ltac:(lia)) as (v & Ev).
       exists x, rdx, v. repeat split; try assumption. intros Hmn. rewrite (Hz Hmn) in Ev. cbn in Ev. now injection Ev as <-. }
-  (* reuse the analysis with a stopper whenever the text behind the rings is not empty *)
-  destruct (l_close i) as [a|] eqn:Ecl.
-  - (* ")" follows: exactly as in the middle of a text *)
-    destruct (scan_lin fo i ["}"%char] cur cyc Hok cont_end) as (x & rdx & E & S & B).
-    (* the scan never looks behind the ")" *)
-    unfold lin_tail_str in *. rewrite Ecl in *. cbn [close_str] in *.
-    destruct (l_mult i) as [ds|] eqn:Em.
-    + destruct Hm as (Er & Eb & _). rewrite Er, Eb in *. cbn [mult_str rings_str osym_str app] in *.
-      rewrite clean_is_sym, scan_stop in E by reflexivity. injection E as <- <-.
-      apply (Hgen (sym_st default_bond_order cyc []) O); [now rewrite clean_is_sym, scan_stop by reflexivity|exact S|reflexivity].
-    + cbn [mult_str app] in *.
-      destruct (ring_scan_item cur (l_rings i) (l_bond i) ")"%char (osym_str a) cyc Hr) as (x2 & E2 & S2); [repeat split|].
+  unfold lin_tail_str in *.
+  destruct (l_mult i) as [ds|] eqn:Em.
+  - destruct Hm as (Er & _). rewrite Er in *. cbn [mult_str rings_str app] in *.
+    apply (Hgen (sym_st default_bond_order cyc []) O); [now rewrite clean_is_sym, scan_stop by reflexivity|reflexivity|reflexivity].
+  - cbn [mult_str app] in *.
+    destruct (l_close i) as [a|] eqn:Ecl; cbn [close_str] in *.
+    + destruct (ring_scan_item cur (l_rings i) (l_bond i) ")"%char (osym_str a) cyc Hr) as (x2 & E2 & S2); [repeat split|].
       apply (Hgen x2 _ E2 S2). intros C; now elim C.
-  - unfold item_end_ok in Hend. rewrite Ecl in Hend. cbn [is_some orb] in Hend.
-    unfold lin_tail_str in *. rewrite Ecl in *. cbn [close_str] in *. rewrite !app_nil_r in *.
-    destruct (l_mult i) as [ds|] eqn:Em.
-    + destruct Hm as (Er & Eb & _). rewrite Er, Eb in *. cbn [mult_str rings_str osym_str app] in *. rewrite app_nil_r in *.
-      apply (Hgen (sym_st default_bond_order cyc []) O); [now rewrite clean_is_sym, scan_stop by reflexivity|reflexivity|reflexivity].
-    + cbn [mult_str app is_some orb] in *.
-      destruct (ring_list_pend cur (l_rings i) false AClean cyc [] (osym_str (l_bond i)) 0 Hr I eq_refl)
-        as (a' & cyc1 & ces1 & E & Ha & Hp & S). cbn [settled] in S. cbn [plus] in E.
+    + rewrite !app_nil_r in *.
+      destruct (ring_list cur (l_rings i) false AClean cyc [] (osym_str (l_bond i)) 0 Hr I eq_refl)
+        as (a' & cyc1 & ces1 & E & Ha & S). cbn [settled] in S. cbn [plus] in E.
       destruct (l_bond i) as [s|] eqn:Eb; cbn [osym_str] in *.
       * rewrite settle_any in E by (apply sym_not_digit || assumption).
         rewrite (clean_is_sym (fst (settled cur a' cyc1 ces1)) (snd (settled cur a' cyc1 ces1))), scan_sym in E.
-        cbn [ring_scan] in E.
+        cbn [ring_scan sym_st r_multi andb] in E.
         eapply Hgen; [change (clean_st cyc []) with (conc AClean cyc []); exact E| |intros C; now elim C].
         cbn [sym_st r_cyc r_ces]. rewrite <- S. now destruct (settled cur a' cyc1 ces1).
-      * cbn [is_some orb] in Hend. apply negb_true_iff in Hend. rewrite Hend in Hp.
-        destruct a'; [|discriminate]. cbn [ring_scan conc] in E.
+      * destruct (ring_scan_nil cur (length (rings_str false (l_rings i))) a' cyc1 ces1 Ha) as (xe & Ee & Se).
+        rewrite Ee in E.
         eapply Hgen; [change (clean_st cyc []) with (conc AClean cyc []); exact E| |intros C; now elim C].
-        cbn [clean_st r_cyc r_ces]. cbn [settled] in S. exact S.
-Qed.
-
-Lemma nmon_last fo i : lin_ok fo i = true -> nmon_expr (lin_tail_str i) = Ok (Z.of_nat (mult_val (l_mult i))).
-Proof.
-  intros Hok. destruct (l_close i) as [a|] eqn:Ecl.
-  - (* the analysis in the middle of a text never looks behind ")" *)
-    pose proof (nmon_lin fo i ["}"%char] Hok cont_end) as H.
-    unfold lin_tail_str in *. rewrite Ecl in *. cbn [close_str] in *.
-    unfold nmon_expr in *. destruct (lin_ok_parts fo i Hok) as (_ & Hr & Hm & _).
-    destruct (l_mult i) as [ds|] eqn:Em.
-    + destruct Hm as (Er & Eb & Hd & _). rewrite Er, Eb in *. cbn [mult_str rings_str osym_str app] in *.
-      change (Ascii.eqb "|"%char "|"%char) with true in *. cbv iota in *. rewrite fnc0_spec in *.
-      assert (Hin1 : Forall inner ("|"%char :: digits_str ds))
-        by (constructor; [apply inner_bar|apply inner_digits; now apply digits_ok_all]).
-      change ("|"%char :: digits_str ds ++ ")"%char :: osym_str a) with (("|"%char :: digits_str ds) ++ ")"%char :: osym_str a).
-      rewrite (find_idx_inner _ fnc_eon Hin1 incl_eon). cbn [find_idx]. change (str_in [")"%char] fnc_eon) with true. cbv iota.
-      cbn [bind]. rewrite Nat.add_0_r. cbn [length]. unfold py_slice. cbn [app skipn].
-      replace (Datatypes.S (length (digits_str ds)) - 1)%nat with (length (digits_str ds)) by lia.
-      rewrite firstn_app, Nat.sub_diag, firstn_all. cbn [firstn]. rewrite app_nil_r. now apply py_int_full_digits.
-    + cbn [mult_str app mult_val] in *.
-      assert (Hp : Forall nobar (rings_str false (l_rings i) ++ osym_str (l_bond i)))
-        by (apply Forall_app; split; [now apply nobar_rings|apply nobar_osym]).
-      rewrite app_assoc. destruct (rings_str false (l_rings i) ++ osym_str (l_bond i)) as [|c p]; cbn [app]; [reflexivity|].
-      inversion Hp as [|? ? Hc _]; subst. destruct (Ascii.eqb_spec c "|"%char); [contradiction|reflexivity].
-  - unfold lin_tail_str. rewrite Ecl. cbn [close_str]. rewrite !app_nil_r.
-    destruct (lin_ok_parts fo i Hok) as (_ & Hr & Hm & _). unfold nmon_expr.
-    destruct (l_mult i) as [ds|] eqn:Em.
-    + destruct Hm as (Er & Eb & Hd & _). rewrite Er, Eb. cbn [mult_str rings_str osym_str app mult_val]. rewrite app_nil_r.
-      change (Ascii.eqb "|"%char "|"%char) with true. cbv iota. rewrite fnc0_spec.
-      assert (Hin1 : Forall inner ("|"%char :: digits_str ds))
-        by (constructor; [apply inner_bar|apply inner_digits; now apply digits_ok_all]).
-      rewrite <- (app_nil_r ("|"%char :: digits_str ds)) at 1.
-      rewrite (find_idx_inner _ fnc_eon Hin1 incl_eon). cbn [find_idx bind]. rewrite Nat.add_0_r. cbn [length].
-      unfold py_slice. cbn [skipn]. replace (Datatypes.S (length (digits_str ds)) - 1)%nat with (length (digits_str ds)) by lia.
-      rewrite firstn_all. now apply py_int_full_digits.
-    + cbn [mult_str app mult_val].
-      assert (Hp : Forall nobar (rings_str false (l_rings i) ++ osym_str (l_bond i)))
-        by (apply Forall_app; split; [now apply nobar_rings|apply nobar_osym]).
-      destruct (rings_str false (l_rings i) ++ osym_str (l_bond i)) as [|c p]; [reflexivity|].
-      inversion Hp as [|? ? Hc _]; subst. destruct (Ascii.eqb_spec c "|"%char); [contradiction|reflexivity].
+        rewrite Se. exact S.
 Qed.
 
 Lemma look_last fo i : lin_ok fo i = true ->
@@ -209,29 +191,32 @@ Proof.
   - cbn [ch_eq orb bind]. eexists. split; [reflexivity|]. split; reflexivity.
 Qed.
 
+
 (** one iteration on the LAST item of a text without braces: graph and ring table agree with the machine *)
 Lemma node_step_last fo i st x pc :
-  lin_ok fo i = true -> item_end_ok i = true -> Rel st x ->
-  (Ascii.eqb pc "("%char = l_open i) -> (l_open i = true -> m_prev x <> None) ->
+  lin_ok fo i = true -> Rel st x ->
+  (Ascii.eqb pc "("%char = l_open i) -> (l_open i = true -> exists p, m_prev x = Some p /\ has_node (m_g x) p = true) ->
   (l_close i <> None -> (if l_open i then m_prev x :: m_stack x else m_stack x) <> []) ->
   match item_effect fo i x with
   | Ok x1 => exists st1, node_step fo st pc (l_name i) (lin_tail_str i) = Ok st1 /\ s_g st1 = m_g x1 /\ s_cycle st1 = m_rings x1
   | Err e => node_step fo st pc (l_name i) (lin_tail_str i) = Err e
   end.
 Proof.
-  intros Hok Hend (Rg & Rc & Rp & Rcy & Rba & Rbr & Rpb) Hpc Hop Hst.
+  intros Hok (Rg & Rc & Rp & Rcy & Rba & Rbr & Rpb) Hpc Hop Hst.
   destruct (lin_ok_parts fo i Hok) as (Hn & Hr & Hm & Hc).
   rewrite node_step_eq. unfold item_effect.
   set (stack0 := if l_open i then m_prev x :: m_stack x else m_stack x).
   assert (Hopened : exists rc, opened st pc = Ok (negb (is_nil stack0), rev stack0, rc)).
   { unfold opened, stack0. rewrite Hpc. destruct (l_open i).
-    - destruct (m_prev x) as [p|] eqn:Ep; [|now elim Hop]. destruct (Rpb p eq_refl) as [_ Ha].
-      destruct (s_attributes st) as [a0|]; [|contradiction]. cbn [of_option bind]. eexists. rewrite Rba, Rp. reflexivity.
+    - destruct (Hop eq_refl) as (p & Ep & Hp). rewrite Rp, Ep, Rg.
+      unfold node_attrs, has_node in *. destruct (gfind p (m_g x)) as [nr|]; [|discriminate]. cbn [bind].
+      eexists. rewrite Rba. reflexivity.
     - eexists. rewrite Rbr, Rba. reflexivity. }
   destruct Hopened as (rc & ->). cbn [bind].
-  destruct (scan_last fo i (s_current st) (s_cycle st) Hok Hend) as (xr & rdx & v & Escan & Sr & Ebond & Hv).
+  destruct (scan_last fo i (s_current st) (s_cycle st) Hok) as (xr & rdx & v & Escan & Sr & Ebond & Hv).
   rewrite Escan. cbn [bind]. rewrite Ebond. cbn [bind].
-  rewrite (nmon_last fo i Hok). cbn [bind]. rewrite Nat2Z.id.
+  rewrite (nmon_last fo i v Hok Hv). cbn [bind]. rewrite Nat2Z.id.
+  set (bo := match l_mult i with Some _ => oord (l_bond i) | None => v end).
   destruct (parse_graph_base_node fo (l_name i)) as [a|e] eqn:Ea; cbn [bind]; [|reflexivity].
   assert (Ha : ahas (S "node_for_adding") a = false).
   { unfold name_ok in Hn. rewrite Ea in Hn. apply andb_prop in Hn as [_ Hn]. now destruct (ahas _ a). }
@@ -244,12 +229,12 @@ Proof.
   destruct Hrec as (rc' & ->). cbn [bind].
   rewrite Rcy, Rc in Sr. rewrite Rg, Rc, Rp.
   assert (Hpp : forall p, m_prev x = Some p -> s_pbo st = Some (m_pend x)) by (intros p Hp'; now destruct (Rpb p Hp')).
-  assert (Hadd : add_nodes (mult_val (l_mult i)) a v (r_ces xr) (m_g x) (m_next x) (m_prev x) (s_pbo st)
+  assert (Hadd : add_nodes (mult_val (l_mult i)) a bo (r_ces xr) (m_g x) (m_next x) (m_prev x) (s_pbo st)
                = (let '(g2, nx, pv) := m_copies (mult_val (l_mult i)) a (m_g x) (m_next x) (m_prev x) (m_pend x) in
-                  g3 <- add_cycle_edges g2 (r_ces xr) ;; Ok (g3, nx, pv, Some v))).
+                  g3 <- add_cycle_edges g2 (r_ces xr) ;; Ok (g3, nx, pv, Some bo))).
   { destruct (l_mult i) as [ds|] eqn:Em; cbn [mult_val].
-    - destruct Hm as (Er & Eb & Hd & H1). rewrite Er in Sr. cbn [spec_rings] in Sr. injection Sr as _ Eces.
-      rewrite Eces. rewrite (Hv ltac:(discriminate)). rewrite (add_nodes_copies _ a _ _ _ _ (m_pend x) Ha Hpp).
+    - destruct Hm as (Er & Hd & H1). rewrite Er in Sr. cbn [spec_rings] in Sr. injection Sr as _ Eces.
+      rewrite Eces. rewrite (add_nodes_copies _ a _ _ _ _ _ (m_pend x) Ha) by (intros _; exact Hpp).
       destruct (m_copies (digits_nat ds) a (m_g x) (m_next x) (m_prev x) (m_pend x)) as [[g2 nx] pv].
       cbn [add_cycle_edges bind]. destruct (digits_nat ds); [lia|reflexivity].
     - now apply add_nodes_one. }
@@ -270,77 +255,10 @@ Lemma cont_lins_ne j t : cont (lins_str (j :: t)).
 Proof.
   cbn [lins_str flat_map]. unfold lin_str. destruct (l_open j); cbn [app]; rewrite <- ?app_assoc; cbn [app]; constructor.
 Qed.
-Lemma end_ok_cons i j t : end_ok (i :: j :: t) = end_ok (j :: t).
-Proof.
-  unfold end_ok. cbn [rev]. destruct (rev t ++ [j]) as [|z r] eqn:E; [destruct (rev t); discriminate|]. reflexivity.
-Qed.
 Lemma tail_no_node fo i pc : lin_ok fo i = true -> next_node pc (lin_tail_str i) = None.
 Proof.
   intros Hok. rewrite <- (app_nil_r (lin_tail_str i)). rewrite next_node_skip by (apply skipch_nob; now apply (lin_tail_skipch fo)).
   reflexivity.
-Qed.
-
-Theorem sim_loop_end fo : forall l st x pre pc fuel,
-  l <> [] -> forallb (lin_ok fo) l = true -> lin_depth (length (m_stack x)) l = true -> end_ok l = true ->
-  Rel st x -> all_some (m_stack x) ->
-  (m_prev x = None -> match l with i :: _ => l_open i = false | [] => True end) ->
-  Forall skipch pre -> pc <> "("%char -> (length l < fuel)%nat ->
-  match m_run fo (lins_toks l) x with
-  | Ok x1 => exists st1, main_loop fuel fo pc (pre ++ lins_str l) st = Ok st1 /\ s_g st1 = m_g x1 /\ s_cycle st1 = m_rings x1
-  | Err e => main_loop fuel fo pc (pre ++ lins_str l) st = Err e
-  end.
-Proof.
-  induction l as [|i t IH]; intros st x pre pc fuel Hne Hok Hd Hend HR Hs Hfirst Hpre Hpc Hfuel; [contradiction|].
-  cbn [forallb] in Hok. apply andb_prop in Hok as [Hoki Hokt].
-  destruct fuel as [|f]; [cbn in Hfuel; lia|]. cbn [length] in Hfuel.
-  cbn [lins_toks flat_map]. fold (lins_toks t). rewrite (m_item fo i (lins_toks t) x Hoki).
-  cbn [lins_str flat_map]. fold (lins_str t).
-  destruct (lin_ok_parts fo i Hoki) as (Hn & _).
-  set (opn := if l_open i then ["("%char] else []).
-  assert (Etext : pre ++ lin_str i ++ lins_str t
-                = (pre ++ opn) ++ "["%char :: "#"%char :: l_name i ++ "]"%char :: (lin_tail_str i ++ lins_str t)).
-  { unfold lin_str, opn. rewrite <- !app_assoc. cbn [app]. rewrite <- !app_assoc. reflexivity. }
-  rewrite Etext. cbn [main_loop].
-  assert (Hopn : Forall nob (pre ++ opn)).
-  { apply Forall_app; split; [now apply skipch_nob|]. unfold opn. destruct (l_open i); repeat constructor. discriminate. }
-  rewrite next_node_skip by assumption. rewrite next_node_here by (now apply (name_chars fo)).
-  assert (Hpc' : Ascii.eqb (last (pre ++ opn) pc) "("%char = l_open i).
-  { unfold opn. destruct (l_open i).
-    - rewrite last_last. reflexivity.
-    - rewrite app_nil_r. apply Ascii.eqb_neq. now apply last_skipch. }
-  assert (Hop : l_open i = true -> m_prev x <> None).
-  { intros Ho Hn0. specialize (Hfirst Hn0). cbn in Hfirst. congruence. }
-  assert (Hst : l_close i <> None -> (if l_open i then m_prev x :: m_stack x else m_stack x) <> []).
-  { intros Hc. cbn [lin_depth] in Hd. destruct (l_open i); [discriminate|].
-    destruct (l_close i); [|contradiction]. destruct (m_stack x); [discriminate|discriminate]. }
-  destruct t as [|j t'].
-  - (* the last item *)
-    cbn [lins_str flat_map]. rewrite app_nil_r.
-    pose proof (node_step_last fo i st x _ Hoki Hend HR Hpc' Hop Hst) as Hstep.
-    cbn [lins_toks flat_map m_run].
-    destruct (item_effect fo i x) as [x1|e]; cbn [bind].
-    + destruct Hstep as (st1 & -> & G & C). cbn [bind]. exists st1. split; [|split; assumption].
-      destruct f as [|f']; [lia|]. cbn [main_loop]. now rewrite (tail_no_node fo).
-    + rewrite Hstep. reflexivity.
-  - (* an item in the middle: as in [sim_loop] *)
-    set (k := lins_str (j :: t')).
-    assert (Hk : cont k) by apply cont_lins_ne.
-    pose proof (node_step_lin fo i k st x _ Hoki Hk HR Hpc' Hop Hst) as Hstep.
-    destruct (item_effect fo i x) as [x1|e] eqn:Eeff; cbn [bind].
-    + destruct Hstep as (st1 & -> & HR1 & _). cbn [bind].
-      destruct (item_effect_inv fo i x x1 Hoki Eeff Hs Hop) as (Hs1 & Hp1 & Hd1).
-      assert (Hdt : lin_depth (length (m_stack x1)) (j :: t') = true).
-      { cbn [lin_depth] in Hd. cbv zeta in Hd1. destruct (l_close i).
-        - rewrite Hd1 in Hd. exact Hd.
-        - rewrite Hd1 in Hd. exact Hd. }
-      rewrite end_ok_cons in Hend.
-      apply (IH st1 x1 (lin_tail_str i) "]"%char f); try assumption.
-      * discriminate.
-      * intros Hn0. contradiction.
-      * now apply (lin_tail_skipch fo).
-      * discriminate.
-      * cbn [length] in *. lia.
-    + rewrite Hstep. reflexivity.
 Qed.
 
 Lemma last_app_ne {A} (a b : list A) d : b <> [] -> last (a ++ b) d = last b d.
@@ -360,17 +278,81 @@ Proof.
   rewrite last_cons_default. apply last_skipch; [now apply (lin_tail_skipch fo)|discriminate].
 Qed.
 
-(** ** the simulation theorem for texts without braces *)
-Theorem reader_sim_lin_nobrace fo l : lins_ok fo l = true -> end_ok l = true ->
-  read_cgsmiles fo (lins_str l) = denote_lin fo l.
+
+Theorem sim_loop_end fo : forall l st x pre pc fuel,
+  l <> [] -> forallb (lin_ok fo) l = true -> lin_depth (length (m_stack x)) l = true ->
+  Rel st x -> all_some (m_stack x) -> mwf x ->
+  (m_prev x = None -> match l with i :: _ => l_open i = false | [] => True end) ->
+  Forall skipch pre -> pc <> "("%char -> (length l < fuel)%nat ->
+  match m_run fo (lins_toks l) x with
+  | Ok x1 => exists st1, main_loop fuel fo pc (pre ++ lins_str l) st = Ok st1 /\ s_g st1 = m_g x1 /\ s_cycle st1 = m_rings x1
+  | Err e => main_loop fuel fo pc (pre ++ lins_str l) st = Err e
+  end.
 Proof.
-  unfold lins_ok. intros H Hend. apply andb_prop in H as [H Hfirst]. apply andb_prop in H as [Hok Hd].
+  induction l as [|i t IH]; intros st x pre pc fuel Hne Hok Hd HR Hs Hw Hfirst Hpre Hpc Hfuel; [contradiction|].
+  cbn [forallb] in Hok. apply andb_prop in Hok as [Hoki Hokt].
+  destruct fuel as [|f]; [cbn in Hfuel; lia|]. cbn [length] in Hfuel.
+  cbn [lins_toks flat_map]. fold (lins_toks t). rewrite (m_item fo i (lins_toks t) x Hoki).
+  cbn [lins_str flat_map]. fold (lins_str t).
+  destruct (lin_ok_parts fo i Hoki) as (Hn & _).
+  set (opn := if l_open i then ["("%char] else []).
+  assert (Etext : pre ++ lin_str i ++ lins_str t
+                = (pre ++ opn) ++ "["%char :: "#"%char :: l_name i ++ "]"%char :: (lin_tail_str i ++ lins_str t)).
+  { unfold lin_str, opn. rewrite <- !app_assoc. cbn [app]. rewrite <- !app_assoc. reflexivity. }
+  rewrite Etext. cbn [main_loop].
+  assert (Hopn : Forall nob (pre ++ opn)).
+  { apply Forall_app; split; [now apply skipch_nob|]. unfold opn. destruct (l_open i); repeat constructor. discriminate. }
+  rewrite next_node_skip by assumption. rewrite next_node_here by (now apply (name_chars fo)).
+  assert (Hpc' : Ascii.eqb (last (pre ++ opn) pc) "("%char = l_open i).
+  { unfold opn. destruct (l_open i).
+    - rewrite last_last. reflexivity.
+    - rewrite app_nil_r. apply Ascii.eqb_neq. now apply last_skipch. }
+  assert (Hop : l_open i = true -> m_prev x <> None).
+  { intros Ho Hn0. specialize (Hfirst Hn0). cbn in Hfirst. congruence. }
+  assert (Hop2 : l_open i = true -> exists p, m_prev x = Some p /\ has_node (m_g x) p = true).
+  { intros Ho. specialize (Hop Ho). destruct (m_prev x) as [p|] eqn:Ep; [|contradiction]. exists p. split; [reflexivity|].
+    apply (w_prev x Hw). exact Ep. }
+  assert (Hst : l_close i <> None -> (if l_open i then m_prev x :: m_stack x else m_stack x) <> []).
+  { intros Hc. cbn [lin_depth] in Hd. destruct (l_open i); [discriminate|].
+    destruct (l_close i); [|contradiction]. destruct (m_stack x); [discriminate|discriminate]. }
+  destruct t as [|j t'].
+  - cbn [lins_str flat_map]. rewrite app_nil_r.
+    pose proof (node_step_last fo i st x _ Hoki HR Hpc' Hop2 Hst) as Hstep.
+    cbn [lins_toks flat_map m_run].
+    destruct (item_effect fo i x) as [x1|e]; cbn [bind].
+    + destruct Hstep as (st1 & -> & G & C). cbn [bind]. exists st1. split; [|split; assumption].
+      destruct f as [|f']; [lia|]. cbn [main_loop]. now rewrite (tail_no_node fo).
+    + rewrite Hstep. reflexivity.
+  - set (k := lins_str (j :: t')).
+    assert (Hk : cont k) by apply cont_lins_ne.
+    pose proof (node_step_lin fo i k st x _ Hoki Hk HR Hpc' Hop2 Hst) as Hstep.
+    destruct (item_effect fo i x) as [x1|e] eqn:Eeff; cbn [bind].
+    + destruct Hstep as (st1 & -> & HR1 & _). cbn [bind].
+      pose proof (item_effect_mwf fo i x x1 Hoki Eeff Hw) as Hw1.
+      destruct (item_effect_inv fo i x x1 Hoki Eeff Hs Hop) as (Hs1 & Hp1 & Hd1).
+      assert (Hdt : lin_depth (length (m_stack x1)) (j :: t') = true).
+      { cbn [lin_depth] in Hd. cbv zeta in Hd1. destruct (l_close i).
+        - rewrite Hd1 in Hd. exact Hd.
+        - rewrite Hd1 in Hd. exact Hd. }
+      apply (IH st1 x1 (lin_tail_str i) "]"%char f); try assumption.
+      * discriminate.
+      * intros Hn0. contradiction.
+      * now apply (lin_tail_skipch fo).
+      * discriminate.
+      * cbn [length] in *. lia.
+    + rewrite Hstep. reflexivity.
+Qed.
+
+(** ** the simulation theorem for texts without braces *)
+Theorem reader_sim_lin_nobrace fo l : lins_ok fo l = true -> read_cgsmiles fo (lins_str l) = denote_lin fo l.
+Proof.
+  unfold lins_ok. intros H. apply andb_prop in H as [H Hfirst]. apply andb_prop in H as [Hok Hd].
   destruct l as [|i t] eqn:El; [reflexivity|]. rewrite <- El in *.
   assert (Hne : l <> []) by (rewrite El; discriminate).
   unfold read_cgsmiles, denote_lin, m_finish.
   assert (HR : Rel init_state m_init) by (unfold Rel; cbn; repeat split; discriminate).
   pose proof (sim_loop_end fo l init_state m_init [] (last (lins_str l) " "%char) (Datatypes.S (length (lins_str l)))
-                Hne Hok Hd Hend HR (Forall_nil _)) as Hsim.
+                Hne Hok Hd HR (Forall_nil _) mwf_init) as Hsim.
   cbn [app] in Hsim.
   assert (H1 : m_prev m_init = None -> match l with i0 :: _ => l_open i0 = false | [] => True end).
   { intros _. rewrite El in *. now destruct (l_open i). }
@@ -381,83 +363,20 @@ Proof.
   - destruct Hsim as (st1 & -> & G & C). cbn [bind]. rewrite C, G. reflexivity.
   - rewrite Hsim. reflexivity.
 Qed.
-Theorem reader_sim_ast_nobrace fo a l : linearize a = Some l -> lins_ok fo l = true -> end_ok l = true ->
+Theorem reader_sim_ast_nobrace fo a l : linearize a = Some l -> lins_ok fo l = true ->
   read_cgsmiles fo (print false a) = denote fo a.
 Proof.
-  intros E Hok Hend. destruct (linearize_spec a l E) as (P1 & P2 & P3).
+  intros E Hok. destruct (linearize_spec a l E) as (P1 & P2 & P3).
   unfold print, denote. rewrite P3, P2, P1. now apply reader_sim_lin_nobrace.
 Qed.
 
-(** ** [end_ok] follows from the textual class predicate: the text does not end in "%" digits *)
-Lemma final_pp_text : forall r pp, forallb (fun om => marker_ok (snd om)) r = true -> final_pp pp r = true ->
-  (r = [] /\ pp = true) \/ exists q ds, rings_str pp r = q ++ "%"%char :: digits_str ds /\ digits_ok ds = true.
-Proof.
-  induction r as [|[o m] t IH]; intros pp Hr H; [left; split; [reflexivity|exact H]|]. right.
-  cbn [forallb snd] in Hr. apply andb_prop in Hr as [Hm Ht]. cbn [final_pp rings_str] in *.
-  destruct (IH _ Ht H) as [[-> Hp]|(q & ds & E & Hd)].
-  - cbn [rings_str]. rewrite app_nil_r. unfold pct_form in Hp. unfold ring_str.
-    destruct m as [d|ds]; cbn [is_pct orb] in Hp.
-    + apply andb_prop in Hp as [-> Ho]. destruct o; [discriminate|]. cbn [marker_ok] in Hm.
-      exists [], [0%nat; d]. split; [reflexivity|]. cbn [digits_ok forallb]. now rewrite Hm.
-    + exists (osym_str o), ds. split; [now destruct o|exact Hm].
-  - exists (ring_str pp o m ++ q), ds. split; [|assumption]. rewrite E. now rewrite app_assoc.
-Qed.
-Lemma drop_digits_rev ds rest : forallb (fun d => (d <? 10)%nat) ds = true ->
-  drop_digits (rev (digits_str ds) ++ "%"%char :: rest) = "%"%char :: rest.
-Proof.
-  intros H. assert (Hall : Forall (fun c => is_digit c = true) (rev (digits_str ds))).
-  { apply Forall_rev. unfold digits_str. apply Forall_forall. intros c Hc. apply in_map_iff in Hc as (d & <- & Hd).
-    rewrite forallb_forall in H. specialize (H d Hd). apply Nat.ltb_lt in H. now apply digit_is_digit. }
-  induction Hall as [|c r Hc _ IH]; [reflexivity|]. cbn [app drop_digits]. now rewrite Hc.
-Qed.
-Lemma ends_in_pct_app x ds : digits_ok ds = true -> ends_in_pct (x ++ "%"%char :: digits_str ds) = true.
-Proof.
-  intros Hd. destruct (digits_ok_all ds Hd) as [Hall Hne]. unfold ends_in_pct.
-  rewrite rev_app_distr. cbn [rev]. rewrite <- app_assoc. cbn [app].
-  rewrite drop_digits_rev by assumption. 
-  destruct (exists_last Hne) as (ds' & z & ->). unfold digits_str. rewrite map_app, rev_app_distr. cbn [map rev app].
-  rewrite forallb_app in Hall. apply andb_prop in Hall as [_ Hz]. cbn [forallb] in Hz. rewrite andb_true_r in Hz.
-  apply Nat.ltb_lt in Hz. now rewrite digit_is_digit.
-Qed.
-Lemma end_ok_of_text fo l : forallb (lin_ok fo) l = true -> ends_in_pct (lins_str l) = false -> end_ok l = true.
-Proof.
-  intros Hok Ht. unfold end_ok. destruct (rev l) as [|z r] eqn:Er; [reflexivity|].
-  assert (El : l = rev r ++ [z]) by (rewrite <- (rev_involutive l), Er; reflexivity).
-  unfold item_end_ok. destruct (l_close z) eqn:Ec; [reflexivity|]. destruct (l_bond z) eqn:Eb; [reflexivity|].
-  destruct (l_mult z) eqn:Em; [reflexivity|]. cbn [is_some orb]. apply negb_true_iff.
-  destruct (final_pp false (l_rings z)) eqn:Ef; [|reflexivity]. exfalso.
-  rewrite El, forallb_app in Hok. apply andb_prop in Hok as [_ Hz]. cbn [forallb] in Hz. apply andb_prop in Hz as [Hz _].
-  destruct (lin_ok_parts fo z Hz) as (_ & Hr & _).
-  destruct (final_pp_text (l_rings z) false Hr Ef) as [[_ C]|(q & ds & E & Hd)]; [discriminate|].
-  assert (Etext : lins_str l = (lins_str (rev r) ++ (if l_open z then ["("%char] else []) ++ "["%char :: "#"%char :: l_name z ++ "]"%char :: q)
-                               ++ "%"%char :: digits_str ds).
-  { rewrite El. unfold lins_str. rewrite flat_map_app. cbn [flat_map]. rewrite app_nil_r. unfold lin_str, lin_tail_str.
-    rewrite Ec, Eb, Em, E. cbn [mult_str osym_str close_str]. rewrite !app_nil_r. rewrite <- !app_assoc. cbn [app]. rewrite <- !app_assoc. reflexivity. }
-  rewrite Etext, ends_in_pct_app in Ht by assumption. discriminate.
-Qed.
-
-(** ** C04 for texts without braces, in the property's own terms *)
-Theorem reader_sim_wf_nobrace fo a : wf fo a = true -> has_branch_mult a = false ->
-  cls_double_close a = false -> cls_nodemult_sym a = false -> cls_pct_at_end false a = false ->
-  read_cgsmiles fo (print false a) = denote fo a.
-Proof.
-  intros Hwf Hb Hd Hn Hp. pose proof (flat_ok_of_wf fo a Hwf Hb Hd Hn) as Hf. unfold flat_ok in Hf.
-  destruct (linearize a) as [l|] eqn:El; [|discriminate].
-  apply (reader_sim_ast_nobrace fo a l El Hf).
-  destruct (linearize_spec a l El) as (P1 & _). unfold cls_pct_at_end in Hp. cbn [negb andb] in Hp. rewrite P1 in Hp.
-  apply (end_ok_of_text fo); [|exact Hp]. unfold lins_ok in Hf. apply andb_prop in Hf as [Hf _]. now apply andb_prop in Hf as [Hf _].
-Qed.
-Print Assumptions reader_sim_wf_nobrace.
-
-(** both kinds of text at once, with the classes as numbered by the check *)
-From CGV Require Import Reader.ReaderCheck.
+(** ** C04 in the property's own terms, for both kinds of text *)
 Theorem reader_sim_C04 fo braces a : wf fo a = true -> has_branch_mult a = false -> class_C04 braces a = 0%nat ->
   read_cgsmiles fo (print braces a) = denote fo a.
 Proof.
-  intros Hwf Hb Hc. unfold class_C04 in Hc.
-  destruct (cls_double_close a) eqn:E1; [discriminate|]. destruct (cls_pct_at_end braces a) eqn:E2; [discriminate|].
-  destruct (cls_nodemult_sym a) eqn:E3; [discriminate|].
-  destruct braces.
-  - apply reader_sim_ast. now apply flat_ok_of_wf.
-  - now apply reader_sim_wf_nobrace.
+  intros Hwf Hb Hc. unfold class_C04 in Hc. destruct (cls_double_close a) eqn:E1; [discriminate|].
+  pose proof (flat_ok_of_wf fo a Hwf Hb E1) as Hf.
+  destruct braces; [now apply reader_sim_ast|].
+  unfold flat_ok in Hf. destruct (linearize a) as [l|] eqn:El; [|discriminate]. now apply (reader_sim_ast_nobrace fo a l).
 Qed.
+Print Assumptions reader_sim_C04.
